@@ -129,6 +129,17 @@ def _api_build(yp, t, vmap, style, shared):
     return yp.functor(t[1], args)
 
 
+def scribble(py):
+    """appends to every list inside a to_python result (what a caller may do with a value it was given)"""
+    if isinstance(py, list):
+        for x in list(py):
+            scribble(x)
+        py.append('scribbled')
+    elif isinstance(py, tuple):
+        for x in py:
+            scribble(x)
+
+
 def one_off(src_n, t):
     """variants of t that differ in exactly one leaf (must not unify with a ground t)"""
     out = []
@@ -178,13 +189,30 @@ class C16(Prop):
             t = mklist([t, ('a', 'sep'), t])
         names = {}
         text = lit_src(t, src, names)
-        return {'lit': t, 'src': text, 'position': src.pick(['fact', 'head', 'body', 'query', 'file']), 'style': src.n(6)}
+        case = {'lit': t, 'src': text, 'position': src.pick(['fact', 'head', 'body', 'query', 'file']), 'style': src.n(6)}
+        if t[0] == 'f' and src.n(3) == 0:
+            # an earlier clause of the same text holds a literal that PRINTS like this one but is another term: a variable
+            # replaced by the quoted atom of its name, or an argument list / sub-term replaced by one quoted atom
+            def alike(u, top=False):
+                if u[0] == 'v' and u in names:
+                    return ('a', names[u])
+                if u[0] == 'f' and not top and u[1] != '.' and src.n(3) == 0:
+                    return ('a', '%s(%s)' % (u[1], ','.join(lit_src(a, None, dict(names)) for a in u[2])))
+                if u[0] == 'f':
+                    if top and len(u[2]) >= 2 and src.n(4) == 0:
+                        return ('f', u[1], (('a', ','.join(lit_src(a, None, dict(names)) for a in u[2])),))
+                    return ('f', u[1], tuple(alike(a) for a in u[2]))
+                return u
+            d = alike(t, True)
+            if d != t:
+                case['decoy'] = 'zz(%s).\n' % lit_src(d, None, dict(names))
+        return case
 
     def sample_view(self, case):
         return {'literal_source': case['src'], 'position': case['position']}
 
     def case_key(self, case):
-        return case['src'] + '\x00' + case['position']
+        return case['src'] + '\x00' + case['position'] + (case.get('decoy') or '')
 
     def shrink_candidates(self, case):
         t = tt(case['lit'])
@@ -207,6 +235,7 @@ class C16(Prop):
             text = 'p(X) :- X = %s.\n' % s
         else:
             text = 'p(%s).\nq(X) :- p(X).\n' % s
+        text = (case.get('decoy') or '') + text
         detail = {'text': text, 'literal': show(t) if len(repr(t)) < 400 else repr(t)[:400]}
         if pos == 'file':
             # the same source read from a file by the library's file entry point
@@ -246,6 +275,12 @@ class C16(Prop):
                         return FAIL('to_python-differs', dict(detail, expected=repr(image(exp))[:300], observed=repr(py)[:300]))
                     if isinstance(py, list) and exp == NIL and py != []:
                         return FAIL('to_python-differs', detail)
+                    # the result belongs to the caller: changing it in place must not show in any later conversion
+                    scribble(py)
+                    py2 = impl.to_python(X)
+                    if py2 != image(exp) or impl.to_python(yp.makelist([])) != [] or impl.to_python(yp.ATOM_NIL) != []:
+                        return FAIL('to_python-result-shares-state-with-later-results', dict(detail, expected=repr(image(exp))[:300], observed=repr(py2)[:300],
+                                                                                             empty_list_now=repr(impl.to_python(yp.ATOM_NIL))[:100]))
             if n != 1:
                 return FAIL('literal-fact-has-%d-answers' % n, detail)
             if impl.to_python(X) is not None:
